@@ -100,6 +100,25 @@ def vectorise(t, lv, n, shp, dim_term):
                         r = T("getitem", base, T("tuple", _FULL, b))
                 if r is not None:
                     used[0] = True
+        elif x.op == "reshape1" and x.args and all_ones(shp(x)):
+            r = rec(x.args[0])
+        elif x.op == "matmul" and all_ones(shp(x)):
+            # r_j @ A @ c_j (row times matrix times column, per iteration) is the diagonal of R A C^T
+            fac = []
+            y = x
+            while isinstance(y, Term) and y.op == "matmul":
+                fac.insert(0, y.args[1])
+                y = y.args[0]
+            fac.insert(0, y)
+            rows = vectorise_rows(fac[0], lv, n, shp)
+            cols = vectorise_rows(fac[-1], lv, n, shp, column=True)
+            mids = fac[1:-1]
+            if rows is not None and cols is not None and len(fac) >= 2 and not any(mentions(m, lv) for m in mids):
+                acc = rows
+                for m in mids:
+                    acc = T("matmul", acc, m)
+                r = T("diagof", T("matmul", acc, T("T", cols)))
+                used[0] = True
         elif x.op == "phi" and len(x.args) == 3:
             parts = [rec(a) for a in x.args]
             r = None if any(p is None for p in parts) else T("where3", *parts)
@@ -125,6 +144,47 @@ def vectorise(t, lv, n, shp, dim_term):
     if out is None or not used[0]:
         return None
     return out
+
+
+def all_ones(sh):
+    return sh is not None and all(d.is_const() and d.c == 1 for d in sh)
+
+
+def vectorise_rows(t, lv, n, shp, column=False):
+    """(n, F) matrix whose j-th row is the row vector t(j); t is X[j] (X of shape (n, F)),
+    possibly reshaped to (1, F) (or (F, 1) when column=True) and combined elementwise with
+    loop-invariant operands that broadcast along the row"""
+    memo = {}
+    hit = [False]
+
+    def rec(x):
+        if not isinstance(x, Term):
+            return x
+        if x in memo:
+            return memo[x]
+        r = None
+        if not mentions(x, lv):
+            sh = shp(x)
+            # invariant operand: a scalar or a vector along the row
+            if sh is not None and (len(sh) <= 1 or (len(sh) == 2 and any(d.is_const() and d.c == 1 for d in sh))):
+                r = x if (sh is None or len(sh) <= 1 or (sh[0].is_const() and sh[0].c == 1)) else T("T", x)
+        elif x.op == "getitem" and x.args[1] == lv and not mentions(x.args[0], lv):
+            sh = shp(x.args[0])
+            if sh is not None and len(sh) == 2 and sh[0] == n:
+                r = x.args[0]
+                hit[0] = True
+        elif x.op in ("reshape1", "T", "reshape") and x.args:
+            sh = shp(x)
+            if sh is not None and (len(sh) == 1 or (len(sh) == 2 and any(d.is_const() and d.c == 1 for d in sh))):
+                r = rec(x.args[0])
+        elif x.op in ELEMENTWISE:
+            parts = [rec(a) if isinstance(a, Term) else a for a in x.args]
+            r = None if any(p is None for p in parts) else T(x.op, *parts)
+        memo[x] = r
+        return r
+
+    out = rec(t)
+    return out if (out is not None and hit[0]) else None
 
 
 def row_selection(t, lv, n, shp):
